@@ -1706,7 +1706,8 @@ impl Ty {
             ) => {
                 found_size == expected_size
                     && (found_sub_ty.is_weak_replaceable_by(expected_sub_ty)
-                        || found_sub_ty.is_functionally_equivalent_to(expected_sub_ty, false))
+                        || (found_sub_ty.is_functionally_equivalent_to(expected_sub_ty, false)
+                            && found_sub_ty.can_fit_into(expected_sub_ty)))
             }
             (
                 Ty::AnonArray {
@@ -1718,7 +1719,8 @@ impl Ty {
                 },
             ) => {
                 found_sub_ty.is_weak_replaceable_by(expected_sub_ty)
-                    || found_sub_ty.is_functionally_equivalent_to(expected_sub_ty, false)
+                    || (found_sub_ty.is_functionally_equivalent_to(expected_sub_ty, false)
+                        && found_sub_ty.can_fit_into(expected_sub_ty))
             }
             (
                 Ty::Slice {
